@@ -331,6 +331,7 @@ def run(ctx, R):
                     got = ip.truth(ip.call_fn(g, [ma(), mb()]))
                 except A.PanicReached as e:
                     got = "PANIC:" + e.what
+                    R.extra.setdefault("r6_panics", {}).setdefault(op, []).append((la, lb, e.what))
                 n += 1
                 if "Null" in (va, vb):
                     want = (va == vb) if op == "==" else False
@@ -346,6 +347,7 @@ def run(ctx, R):
             R.fail("r6", "unanalysable/%s" % op, C.loc(g["sp"]), "abstract evaluation of %s met an unsupported construct: %s (fail closed)" % (path, e))
             continue
         R.extra.setdefault("r6_pairs", {})[op] = n
+        R.extra.setdefault("r6_panics", {}).setdefault(op, [])
         R.check(bad is None, "r6", "table/%s" % op, C.loc(g["sp"]),
                 "%s (operator %s) gives %s for (%s, %s); the definition gives %s"
                 % (path, op, bad and bad["got"], bad and bad["left"], bad and bad["right"], bad and bad["want"]),
